@@ -28,8 +28,31 @@ const (
 	rpClaEp    = "dtn://n0cla/"
 )
 
-var rpReportTos = []string{"dtn://rpt/in", "dtn://other/x", "dtn://n1/rep", rpNode, "dtn://n0/other", rpAgentEp1, rpAgentEp2, "dtn://n0cla/z", "dtn:none", "ipn:7.1"}
+var rpReportTos = []string{"dtn://rpt/in", "dtn://other/x", "dtn://n1/rep", rpNode, "dtn://n0/other", rpAgentEp1, rpAgentEp2, "dtn://n0cla/z", "dtn:none", "ipn:7.1",
+	// endpoints under the further listener IDs of the node (rpClaPool)
+	"dtn://n0wan/mon", "dtn://n0tcp/", "ipn:9.5", "dtn://n0ws/a", "ipn:8.1"}
 var rpReceivers = []string{rpNode, "dtn:none", rpAgentEp2, rpClaEp, "dtn://stranger/"}
+
+// rpCla is one listening CLA of the node's configuration: dtnd registers the endpoint ID of every
+// [[listen]] entry under its CLA type (Core.RegisterCLA -> cla.Manager.RegisterEndpointID).  A
+// multi-homed node has several of them, also several of one type, with dtn and ipn names.
+type rpCla struct {
+	typ cla.CLAType
+	eid string
+}
+
+// the listener IDs of the standing world (registered in an order drawn per world)
+var rpClaPool = []rpCla{{cla.MTCP, rpClaEp}, {cla.MTCP, "dtn://n0wan/"}, {cla.TCPCLv4, "dtn://n0tcp/"}, {cla.TCPCLv4, "ipn:9.1"},
+	{cla.TCPCLv4WebSocket, "dtn://n0ws/"}, {cla.MTCP, "ipn:8.1"}}
+
+func rpShuffledClas(r *Rng) []rpCla {
+	cs := append([]rpCla{}, rpClaPool...)
+	for i := len(cs) - 1; i > 0; i-- {
+		j := r.Intn(i + 1)
+		cs[i], cs[j] = cs[j], cs[i]
+	}
+	return cs
+}
 
 type rpWorld struct {
 	n      *Node
@@ -37,13 +60,22 @@ type rpWorld struct {
 	failOn map[string]map[string]bool // peer name -> main bundle ID -> fail
 	cases  int
 	mains  map[string]bool // IDs of the generated bundles
+	clas   []rpCla         // listener IDs in the order of registration
+	extra  []string        // endpoints of a second agent
 }
 
-func rpNewWorld(peers bool) *rpWorld {
-	w := &rpWorld{failOn: map[string]map[string]bool{}, mains: map[string]bool{}}
+func rpNewWorld(peers bool) *rpWorld { return rpNewWorldWith(peers, rpClaPool, nil) }
+
+func rpNewWorldWith(peers bool, clas []rpCla, extraAgent []string) *rpWorld {
+	w := &rpWorld{failOn: map[string]map[string]bool{}, mains: map[string]bool{}, clas: clas, extra: extraAgent}
 	w.n = NewNode(rpNode, routing.RoutingConf{Algorithm: "epidemic"})
 	w.agent = w.n.AddAgent("a", rpAgentEp1, rpAgentEp2)
-	w.n.Core.VerifClaManager().RegisterEndpointID(cla.MTCP, MustEID(rpClaEp))
+	if len(extraAgent) > 0 {
+		w.n.AddAgent("b", extraAgent...)
+	}
+	for _, c := range clas {
+		w.n.Core.VerifClaManager().RegisterEndpointID(c.typ, MustEID(c.eid))
+	}
 	if peers {
 		w.peerUp("rs", "dtn://rpt/")
 		w.peerUp("p1", "dtn://n1/")
@@ -131,8 +163,38 @@ func rpDecodeReport(raw []byte, t0, t1 bpv7.DtnTime) S {
 		I(len(b.CanonicalBlocks)), X(payload), U(uint64(t0)), U(uint64(t1)))
 }
 
-func rpEnvS() S {
-	return L(Str(rpNode), L(Str(rpAgentEp1), Str(rpAgentEp2)), L(Str(rpClaEp)))
+// envS: the node's configuration as the model needs it: node ID, agent endpoints, listener IDs (with
+// their CLA type, in the order of registration)
+func (w *rpWorld) envS() S {
+	ags := []S{Str(rpAgentEp1), Str(rpAgentEp2)}
+	for _, e := range w.extra {
+		ags = append(ags, Str(e))
+	}
+	var cs []S
+	for _, c := range w.clas {
+		cs = append(cs, L(U(uint64(c.typ)), Str(c.eid)))
+	}
+	return L(Str(rpNode), LL(ags), LL(cs))
+}
+
+// rpWorldOfEnv rebuilds the world of a recorded case (replay)
+func rpWorldOfEnv(env S) *rpWorld {
+	l := env.(sList)
+	var clas []rpCla
+	for _, c := range l[2].(sList) {
+		if cl, ok := c.(sList); ok {
+			clas = append(clas, rpCla{cla.CLAType(atomU(cl[0])), string(atomX(cl[1]))})
+		} else {
+			clas = append(clas, rpCla{cla.MTCP, string(atomX(c))})
+		}
+	}
+	var extra []string
+	for i, a := range l[1].(sList) {
+		if i >= 2 {
+			extra = append(extra, string(atomX(a)))
+		}
+	}
+	return rpNewWorldWith(true, clas, extra)
 }
 
 // rpCollect splits the sends since `after` into sends of the main bundle and decoded reports (first
@@ -287,7 +349,7 @@ func (w *rpWorld) run(o *Out, sp rpSpec, agentSeen *int) {
 	inStore := w.n.Knows(sp.b.ID())
 	received := sp.kind == 0 && !known
 	deleted := !inStore && !anyOK && !handed
-	o.Case("step", rpEnvS(), I(sp.kind), Str(sp.receiver), B(known), dump, U(uint64(t0)), U(0), B(true), B(true), B(adminOK),
+	o.Case("step", w.envS(), I(sp.kind), Str(sp.receiver), B(known), dump, U(uint64(t0)), U(0), B(true), B(true), B(adminOK),
 		LL(mainSends), B(direct),
 		// observed
 		L(B(received), B(anyOK), B(handed), B(deleted)), B(inStore), LL(reps), I(stray), Str(sp.tag))
@@ -444,7 +506,7 @@ func rpRetryCase(o *Out, r *Rng, fl int, frag bool, expire bool, ctr uint64) {
 	t2 := bpv7.DtnTimeNow()
 	mainSends, anyOK, reps, stray := w.rpCollect(0, id, t0, t2)
 	inStore := w.n.Knows(b.ID())
-	o.Case("retry", rpEnvS(), dump, U(uint64(t0)), U(uint64(t1)), B(loadOK), LL(mainSends),
+	o.Case("retry", w.envS(), dump, U(uint64(t0)), U(uint64(t1)), B(loadOK), LL(mainSends),
 		L(B(true), B(anyOK), B(false), B(!inStore && !anyOK)), B(inStore), LL(reps), I(stray), B(expire))
 }
 
@@ -529,7 +591,7 @@ func rpReplay(o *Out, path string) {
 				fails[pn] = i < nfail
 			}
 		}
-		w := rpNewWorld(true)
+		w := rpWorldOfEnv(f[0])
 		seen := 0
 		w.run(o, rpSpec{kind: atomI(f[1]), receiver: string(atomX(f[2])), b: b, fails: fails, tag: string(atomX(f[16]))}, &seen)
 		w.strayReports(o)
@@ -571,13 +633,13 @@ func genC15report(o *Out, r *Rng, thorough bool) {
 	}
 	g := &rpGen{base: bpv7.DtnTimeNow() - 60000}
 	ocs := rpOutcomes()
-	w := rpNewWorld(true)
+	w := rpNewWorldWith(true, rpShuffledClas(r), nil)
 	agentSeen := 0
 	renew := func() {
 		if w.cases >= 4000 {
 			w.strayReports(o)
 			w.destroy()
-			w = rpNewWorld(true)
+			w = rpNewWorldWith(true, rpShuffledClas(r), nil)
 			agentSeen = 0
 		}
 	}
@@ -647,6 +709,8 @@ func genC15report(o *Out, r *Rng, thorough bool) {
 	}
 	w.strayReports(o)
 	w.destroy()
+	// (d) node configurations: which endpoints are "this node" depends on the listener IDs registered
+	rpConfigWorlds(o, r, g, thorough)
 	// (c) retries from the store
 	nRetry := 6
 	if thorough {
@@ -654,6 +718,81 @@ func genC15report(o *Out, r *Rng, thorough bool) {
 	}
 	for i := 0; i < nRetry; i++ {
 		rpRetryCase(o, r, []int{31, 15, 8, 2, 10, 27}[i%6], i%2 == 1, i%3 != 1, uint64(i))
+	}
+}
+
+// rpConfigWorlds: small worlds with a drawn configuration of listening CLAs - none, one, several of one
+// CLA type, several types, dtn and ipn names, the same name under two types - and a second agent with
+// endpoints outside the node's name.  Per world: a bundle requesting every report with report-to =
+// each endpoint of the node (an endpoint under each listener ID, each agent endpoint, the node ID)
+// and two foreign ones, crossed with outcome classes; and a bundle destined to each listener ID.
+func rpConfigWorlds(o *Out, r *Rng, g *rpGen, thorough bool) {
+	nWorlds := 6
+	if thorough {
+		nWorlds = 60
+	}
+	types := []cla.CLAType{cla.TCPCLv4, cla.TCPCLv4WebSocket, cla.MTCP, cla.BBC}
+	names := []string{"dtn://n0lan/", "dtn://n0wan/", "dtn://gw-7/", "ipn:9.1", "ipn:8.1", "dtn://n0sat/", "ipn:4711.1", rpClaEp}
+	hour := uint64(3600000)
+	all := map[string]bool{"rs": true, "p1": true, "p2": true}
+	ocs := []rpOutcome{
+		{name: "cfg-forwarded", dst: "dtn://far/x", life: hour},
+		{name: "cfg-delivered", dst: rpAgentEp1, life: hour},
+		{name: "cfg-all-sends-failed", dst: "dtn://far/x", life: hour, fails: all},
+		{name: "cfg-local-no-agent", dst: "dtn://n0/nobody", life: hour},
+		{name: "cfg-submit", kind: 1, src: rpAgentEp1, dst: "dtn://far/x", life: hour},
+	}
+	under := func(e string) string { // an endpoint of the node named e
+		if strings.HasPrefix(e, "ipn:") {
+			return strings.TrimSuffix(e, ".1") + "." + []string{"1", "2", "77"}[r.Intn(3)]
+		}
+		return e + []string{"", "mon", "a/b"}[r.Intn(3)]
+	}
+	for wi := 0; wi < nWorlds; wi++ {
+		var clas []rpCla
+		switch k := wi % 6; k {
+		case 0: // two listeners of ONE type
+			t := types[r.Intn(3)]
+			clas = []rpCla{{t, names[r.Intn(3)]}, {t, names[3+r.Intn(5)]}}
+		case 1: // three of one type and one of another
+			t := types[r.Intn(3)]
+			clas = []rpCla{{t, names[0]}, {t, names[3]}, {types[r.Intn(4)], names[5]}, {t, names[1]}}
+		default:
+			n := r.Intn(7)
+			if k == 2 {
+				n = 2 + r.Intn(5)
+			}
+			for i := 0; i < n; i++ {
+				clas = append(clas, rpCla{types[r.Intn(len(types))], names[r.Intn(len(names))]})
+			}
+		}
+		var extra []string
+		if r.Intn(3) > 0 {
+			extra = []string{[]string{"ipn:6.3", "dtn://lab/sensor", "dtn://n0wan/agent"}[r.Intn(3)]}
+			if r.Bool() {
+				extra = append(extra, "dtn://elsewhere2/svc")
+			}
+		}
+		w := rpNewWorldWith(true, clas, extra)
+		seen := 0
+		rpts := []string{rpNode, "dtn://n0/other", rpAgentEp1, rpAgentEp2, "dtn://rpt/in", "dtn://n0other/x", "ipn:9000.1"}
+		rpts = append(rpts, extra...)
+		for _, c := range clas {
+			rpts = append(rpts, under(c.eid))
+		}
+		for _, rpt := range rpts {
+			for k := 0; k < 2; k++ {
+				oc := ocs[r.Intn(len(ocs))]
+				w.run(o, g.spec(oc, []int{15, 31, 1, 2, 8}[r.Intn(5)], r.Intn(3) == 0, rpt, rpReceivers[r.Intn(len(rpReceivers))], r), &seen)
+			}
+		}
+		// destined to an endpoint under a listener ID: local, nobody listens
+		for _, c := range clas {
+			oc := rpOutcome{name: "cfg-local-listener-id", dst: under(c.eid), life: hour}
+			w.run(o, g.spec(oc, 15+16*r.Intn(2), r.Intn(3) == 0, []string{"dtn://rpt/in", under(clas[r.Intn(len(clas))].eid)}[r.Intn(2)], rpNode, r), &seen)
+		}
+		w.strayReports(o)
+		w.destroy()
 	}
 }
 
